@@ -164,6 +164,17 @@ func concOp(kind int, seed int64) string {
 		runtime.Gosched()
 		b, err := resp.IEncode()
 		return fmt.Sprint(b, err != nil)
+	case 15: // GSM 7-bit texts with extension characters through every decoder
+		txt := textFrom(rr, 1+rr.Intn(60), "ab [](){}€^~|\\\f12")
+		sep, err := gsm7.Encode(txt)
+		if err != nil {
+			return "encerr"
+		}
+		d1, _ := gsm7.Decode(sep)
+		d2, _ := datacoding.GSM7Unpacked(sep).Decode()
+		d3, _ := datacoding.GSM7Packed(gsm7.Pack(sep)).Decode()
+		d4, _ := protocol.DecodeSMPPCContent(context.Background(), string(sep), 0)
+		return fmt.Sprint(string(d1), string(d2), string(d3), d4, len(gsm7.ValidateGSM7Buffer(sep)))
 	case 13: // packet-building helpers
 		seq := rr.Uint32()
 		return fmt.Sprint(cmpp20.NewTerminatePacket(seq), cmpp20.NewActiveTestPacket(seq+1), smpp34.NewEnquireLinkReqBytes(seq+2),
@@ -256,7 +267,9 @@ func concOp(kind int, seed int64) string {
 
 func runConc(c Case, tr *Tracer) {
 	fresh := caseInt(c, "fresh") == 1
-	if fresh && os.Getenv("VERIF_CONC_CHILD") == "" {
+	if os.Getenv("VERIF_CONC_CHILD") == "" {
+		// every program runs in a process of its own: a panic on a goroutine or a fatal error of the runtime
+		// (concurrent map access) ends that process only and is reported as an event
 		runConcChild(c, tr)
 		return
 	}
@@ -289,8 +302,9 @@ func runConc(c Case, tr *Tracer) {
 			if i == 1 && g != 1 && g%3 == 0 {
 				o.kind = 14
 			}
-			if fresh && i == 0 && g%2 == 1 {
-				o.kind = []int{6, 2, 11, 12, 13, 14}[(g/2)%6] // first use of the lookup tables, concurrently
+			if fresh && i == 0 {
+				// first use of the lookup tables, on all goroutines at once
+				o.kind = []int{15, 2, 11, 12, 13, 14, 6}[(int(uint(caseInt(c, "t")))/3+g%2)%7]
 			}
 			prog[g] = append(prog[g], o)
 			opID++
